@@ -23,6 +23,25 @@ CFG = {
                 "del_ref": 0.8, "set_mref": 0.3, "eval": 2.0, "evalall": 0.4, "bad": 0.5},
     "min_ops": 10, "max_ops": 24,
     "enum_always": ("del_space", "remove_bases", "del_cells", "del_ref", "rename_cells"),   # every edit that takes a definer away
+    # references carry a mode (auto / relative / absolute) and may hold cells and spaces: mode and binding of a
+    # derived reference are those of its first definer, re-established whenever the first definer changes
+    "ref_modes": 0.45, "obj_refs": 0.3,
+    "extra_light": True,
+    "extra_always": (lambda e: e[0] == "add_bases" and len(e[2]) == 1,),
+    "extra_motifs": [
+        # two bases define one reference name with DIFFERENT modes (object-valued); a cells reads it
+        [["new_space", "-", "A", []], ["new_cells", "A", "f", S.F(0, 1)], ["set_ref", "A", "t", ["obj", "A.f"], "absolute"],
+         ["new_space", "-", "B", []], ["new_cells", "B", "g", S.F(0, 2)], ["set_ref", "B", "t", ["obj", "B.g"], "auto"],
+         ["new_cells", "B", "h", S.F(9, 1, "h", "t")], ["new_space", "-", "C", ["A", "B"]], ["new_space", "-", "D", ["C"]]],
+        # a chain in which the middle space overrides the reference with another mode
+        [["new_space", "-", "A", []], ["new_cells", "A", "f", S.F(0, 1)], ["set_ref", "A", "t", ["obj", "A.f"], "auto"],
+         ["new_cells", "A", "h", S.F(9, 1, "h", "t")], ["new_space", "-", "B", ["A"]], ["new_space", "-", "C", ["B"]],
+         ["set_ref", "B", "t", ["obj", "A.f"], "absolute"], ["set_ref", "A", "s", 4, "absolute"], ["set_ref", "B", "s", 5]],
+        # the definer of a later base; an intermediate base that may gain an earlier definer (other mode)
+        [["new_space", "-", "A", []], ["new_cells", "A", "f", S.F(0, 1)], ["set_ref", "A", "t", ["obj", "A.f"], "relative"],
+         ["new_cells", "A", "h", S.F(9, 1, "h", "t")], ["new_space", "-", "B", []], ["new_cells", "B", "g", S.F(0, 2)],
+         ["set_ref", "B", "t", ["obj", "B.g"], "absolute"], ["new_space", "-", "C", []], ["new_space", "-", "D", ["C", "B"]]],
+    ],
 }
 
 RULE = ("random histories (10-24 ops) over up to 4 top-level spaces and nested children: defining, redefining, "
@@ -81,7 +100,7 @@ def check_state(live, ops, k, out, stats, results=None):
     npre = len(lines)
     for p in paths:
         lines += ["mro " + p, "derived " + p]
-    res = core.run_driver("struct", lines)[npre:]
+    res = core.DriverProc.ask("struct", lines)[npre:]
     py = W.python_c3(defs)
     exp = W.expected_members(defs, py)
     nontrivial = False
@@ -146,8 +165,23 @@ def values_vs_rebuilt(live, ops, k, out, stats):
             stats["rebuild_problems"] += 1
             return
         theirs = S.eval_everything(reb)
+        d_live = W.describe(live.m, with_values=False)["spaces"]
+        d_reb = W.describe(reb.m, with_values=False)["spaces"]
     finally:
         reb.close()
+    # derived references: mode and binding as in the model rebuilt from the definitions (the first definer's mode;
+    # relative / auto references to the definer or its cells denote the deriving space / its cells)
+    for p, sd in d_live.items():
+        for rn, r in sd["refs"].items():
+            r2 = d_reb.get(p, {"refs": {}})["refs"].get(rn)
+            if not r["derived"] or r2 is None or "<dead>" in (r["value"], r2["value"]):
+                continue
+            stats["derived_refs_vs_rebuilt"] += 1
+            if (r["mode"], r["value"]) != (r2["mode"], r2["value"]):
+                out.fail("the derived reference %s.%s has mode %s and denotes %s, in a model rebuilt from the current "
+                         "definitions it has mode %s and denotes %s" % (p, rn, r["mode"], r["value"], r2["mode"], r2["value"]),
+                         S.hist_json(ops, k))
+                return
     stats["values_compared"] += len(mine)
     for q, v in mine.items():
         if q in theirs and theirs[q] != v:
@@ -170,35 +204,55 @@ def run_history(ops, out, stats, check_values=True, rng=None, n_ops=0, gen=None)
     if rng is not None and not ops and gen is not None:
         ops += S.clash_prefix(rng)
     elif rng is not None and not ops:
-        ops += [["set_mref", "u", 11], ["set_mref", "r", 12]] + S.motif(rng)
+        ops += [["set_mref", "u", 11], ["set_mref", "r", 12]] + S.motif(rng, cfg=CFG)
     try:
         k = 0
+        broken = False
         while True:
             if k >= len(ops):
                 if rng is None or k >= n_ops:
                     break
-                ops.append((gen or S.gen_next)(rng, live, CFG, ops, focus=focus))
+                ok, nxt = S.observe(out, lambda: S.hist_json(ops), "when choosing the next operation", lambda: (gen or S.gen_next)(rng, live, CFG, ops, focus=focus))
+                if not ok:
+                    broken = True
+                    break
+                ops.append(nxt)
             op = ops[k]
             k += 1
             if op[0] == "evalall":
                 S.eval_everything(live)
                 results.append("ok")
                 continue
-            mech.before(live, k - 1, op)
+            ok, _ = S.observe(out, lambda: S.hist_json(ops, k - 2), "before %s" % op[0], mech.before, live, k - 1, op)
+            if not ok:
+                broken = True
+                break
             r = live.apply(op)
             results.append(r)
-            mech.after(live, k - 1, op, r)
             stats["op:" + op[0]] += 1
             if r.startswith("err"):
                 stats["rejected:" + op[0]] += 1
+            # an exception of the implementation while its state is read back is an observation (the edit
+            # left the model in a state that cannot be described), never a crash of the check
+            ok, _ = S.observe(out, lambda: S.hist_json(ops, k - 1), "after %s (%s)" % (op[0], r.split(" ")[0]),
+                              mech.after, live, k - 1, op, r)
+            if not ok:
+                broken = True
+                break
             if op[0] in ("eval", "set_value", "clear", "clear_all", "clear_at"):
                 continue
-            if check_state(live, ops, k - 1, out, stats, results):
+            ok, nt = S.observe(out, lambda: S.hist_json(ops, k - 1), "after %s (%s)" % (op[0], r.split(" ")[0]),
+                               check_state, live, ops, k - 1, out, stats, results)
+            if not ok:
+                broken = True
+                break
+            if nt:
                 nontrivial = True
             if out.failures:
                 break
         if check_values and not out.failures:
-            values_vs_rebuilt(live, ops, len(ops) - 1, out, stats)
+            S.observe(out, lambda: S.hist_json(ops), "at the end of the history",
+                      values_vs_rebuilt, live, ops, len(ops) - 1, out, stats)
         # the incremental mechanism model (Struct/Mech.lean) against what the implementation did, edit by edit
         mech.finish(out, lambda kk: S.hist_json(ops, kk), stats)
     finally:
